@@ -1,0 +1,61 @@
+//go:build verif
+
+package chronicler
+
+// Machine-checked contracts (comment-only; compiled only with -tags verif).
+//
+// chroniclerV2 owns one v2.FileWriter. The contracts below state how it drives the storage
+// engine on the paths the persistence properties depend on:
+//   Write   every record of a batch is attempted (a rejected or failed record never stops the
+//           rest of the batch) and every record guard taken is released (C25, C09);
+//   Load    once the index has been replayed without error, the decoded records are pushed to
+//           the in-memory index exactly once, whatever the self-heal compaction does (C25, C02, C05);
+//   runCompactionLocked  a writer that was closed is never kept for later use (C02, C25).
+
+//@ trusted func log/slog.Debug(msg, args)
+//@ trusted func log/slog.Info(msg, args)
+//@ trusted func log/slog.Warn(msg, args)
+//@ trusted func log/slog.Error(msg, args)
+
+
+// Helpers of this package that the contracts treat as opaque (not verified here).
+//@ func (*chroniclerV2).encodeTreasure(c, t, guardID) (data, err)
+//@   opaque
+//@ func (*chroniclerV2).decodeTreasure(c, data) (t, err)
+//@   opaque
+//@ func (*chroniclerV2).maybeCompactInline(c)
+//@   opaque
+//@   modifies *
+
+//@ func (*chroniclerV2).ensureWriter(c) (err)
+//@   property C25 C02
+//@   nopanic
+//@   holds c.mu
+//@   modifies c.writer, c.writerClosed, ghost("stat_file")
+//@   ensures[writer_ready] err == nil ==> c.writer != nil && !c.writerClosed
+//@   ensures[kept_if_usable] old(c.writer) != nil && !old(c.writerClosed) ==> err == nil && c.writer == old(c.writer)
+
+//@ func (*chroniclerV2).Write(c, treasures)
+//@   property C25 C02
+//@   overflow: assumed
+//@   modifies *
+//@   loop 0 invariant[attempted_so_far] calls("Treasure.StartTreasureGuard") == old(calls("Treasure.StartTreasureGuard")) + rangeindex + 1 && calls("Treasure.ReleaseTreasureGuard") == old(calls("Treasure.ReleaseTreasureGuard")) + rangeindex + 1
+//@   ensures[every_record_attempted] calls("chroniclerV2.ensureWriter") > old(calls("chroniclerV2.ensureWriter")) && isnil(lastret("chroniclerV2.ensureWriter")) ==> calls("Treasure.StartTreasureGuard") == old(calls("Treasure.StartTreasureGuard")) + len(treasures)
+//@   ensures[every_guard_released] calls("Treasure.ReleaseTreasureGuard") - old(calls("Treasure.ReleaseTreasureGuard")) == calls("Treasure.StartTreasureGuard") - old(calls("Treasure.StartTreasureGuard"))
+
+//@ func (*chroniclerV2).Load(c, indexObj)
+//@   property C25 C02 C05
+//@   overflow: assumed
+//@   modifies *
+//@   before Beacon.PushManyFromMap [every_replayed_key_was_decoded] forall k in keys(index): visited(k)
+//@   ensures[replayed_index_reaches_memory] calls("FileReader.LoadIndex") > old(calls("FileReader.LoadIndex")) && isnil(lastret("FileReader.LoadIndex", 2)) ==> calls("Beacon.PushManyFromMap") == old(calls("Beacon.PushManyFromMap")) + 1
+//@   ensures[pushed_at_most_once] calls("Beacon.PushManyFromMap") <= old(calls("Beacon.PushManyFromMap")) + 1
+
+//@ func (*chroniclerV2).runCompactionLocked(c) (err)
+//@   property C02 C25 C03
+//@   overflow: assumed
+//@   holds c.mu
+//@   modifies *
+//@   ensures[closed_writer_is_dropped] calls("FileWriter.Close") > old(calls("FileWriter.Close")) && isnil(lastret("FileWriter.Close")) ==> c.writer == nil && c.writerClosed
+//@   ensures[C25:writer_with_closed_file_is_dropped] calls("FileWriter.Close") > old(calls("FileWriter.Close")) && !isnil(lastret("FileWriter.Close")) ==> c.writer == nil
+//@   before Compactor.Compact [no_open_writer_during_compaction] c.writer == nil || c.writerClosed
